@@ -43,6 +43,9 @@ func GenC07(verifSeed uint64, run int) *Scenario {
 			e.History = g.Intn(4)
 			e.Neighbour = g.Bool(0.3)
 			e.Relocate = g.Bool(0.3)
+			if e.Relocate && g.Bool(0.5) {
+				e.RelocName = Pick(g, relocNames)
+			}
 			e.Umask = Pick(g, []int{0, 0, 0o022, 0o077, 0o007, 0o777})
 			e.EnvNoise = g.Intn(4)
 		}
@@ -90,7 +93,11 @@ func (rt *Runtime) buildUnder(w *World, cfg string, format string, e *Env07) c07
 	if e.Relocate {
 		// same tree, other place: a second root materialised in reverse order
 		alt := *rt
-		alt.Root = rt.relocatedRoot()
+		name := e.RelocName
+		if e.SrcMode == "abs" {
+			name = ""
+		}
+		alt.Root = rt.relocatedRoot(name)
 		if _, err := os.Stat(alt.Root); err != nil {
 			if err := MaterializeOrder(alt.Root, w.Tree, true); err != nil {
 				out.err = err
@@ -147,14 +154,20 @@ func (rt *Runtime) buildUnder(w *World, cfg string, format string, e *Env07) c07
 // file system than the first (the disk under /tmp instead of the tmpfs under
 // /dev/shm) when there is one, so that block counts, directory sizes, device
 // numbers and readdir order all differ between the two copies.
-func (rt *Runtime) relocatedRoot() string {
+func (rt *Runtime) relocatedRoot(name string) string {
 	base := filepath.Join(os.TempDir(), "verif-reloc")
 	if os.MkdirAll(base, 0o755) != nil {
 		return rt.Root + "-relocated"
 	}
 	tag := strings.NewReplacer("/", "_").Replace(strings.TrimPrefix(rt.Root, "/dev/shm/"))
-	return filepath.Join(base, tag)
+	if name == "" {
+		name = "plain"
+	}
+	return filepath.Join(base, tag, name)
 }
+
+// relocNames: legal directory names for the second copy of the tree.
+var relocNames = []string{"a?b", "[x]", "{y,z}", "s*t", "with space", `back\slash`, "caf\u00e9"}
 
 var zoneCache = map[int]*time.Location{}
 
@@ -190,9 +203,15 @@ func unshareWorks() bool {
 // envNoise: ambient variables that have nothing to do with packaging.
 var envNoise = [][][2]string{
 	{},
-	{{"HOME", "/home/alice"}, {"USER", "alice"}, {"LOGNAME", "alice"}, {"LANG", "de_DE.UTF-8"}, {"LC_ALL", "de_DE.UTF-8"}, {"TMPDIR", "/dev/shm"}},
-	{{"HOME", "/root"}, {"USER", "root"}, {"LANG", "C"}, {"TMPDIR", "/tmp"}, {"HOSTNAME", "env-host"}},
-	{{"HOME", "/nonexistent"}, {"USER", "builder"}, {"LANG", "tr_TR.UTF-8"}, {"GOFLAGS", ""}, {"XDG_CONFIG_HOME", "/tmp/xdg"}},
+	{{"HOME", "/home/alice"}, {"USER", "alice"}, {"LOGNAME", "alice"}, {"LANG", "de_DE.UTF-8"}, {"LC_ALL", "de_DE.UTF-8"}, {"TMPDIR", "/dev/shm"},
+		// variables other packaging tools read for a default identity or build label
+		{"PACKAGER", "Alice Example <alice@example.invalid>"}, {"DEBEMAIL", "alice@example.invalid"}, {"DEBFULLNAME", "Alice Example"}, {"EMAIL", "alice@example.invalid"},
+		{"NAME", "Alice Example"}, {"MAINTAINER", "Alice Example <alice@example.invalid>"}, {"BUILD_NUMBER", "4711"}, {"CI", "true"}},
+	{{"HOME", "/root"}, {"USER", "root"}, {"LANG", "C"}, {"TMPDIR", "/tmp"}, {"HOSTNAME", "env-host"},
+		{"PACKAGER", "Bob <bob@example.invalid>"}, {"DEBEMAIL", "bob@example.invalid"}, {"GITHUB_SHA", "2c499787328348f09ae1e8f03757c6483b9a938a"}, {"GIT_COMMIT", "2c49978"},
+		{"VERSION", "9.9.9"}, {"RELEASE", "99"}, {"ARCH", "sparc"}, {"RPM_PACKAGER", "Bob"}, {"VENDOR", "Env Vendor"}},
+	{{"HOME", "/nonexistent"}, {"USER", "builder"}, {"LANG", "tr_TR.UTF-8"}, {"GOFLAGS", ""}, {"XDG_CONFIG_HOME", "/tmp/xdg"},
+		{"PACKAGER", " "}, {"BUILD_ID", "b-1"}, {"BUILD_DATE", "2001-02-03"}, {"GOARCH", "mips"}, {"GOOS", "plan9"}, {"NFPM_VERSION", "0.0.1"}, {"DEB_BUILD_OPTIONS", "nocheck"}},
 }
 
 func setEnvNoise(n int) func() {
@@ -316,8 +335,8 @@ func RunC07(rt *Runtime, sc *Scenario) RunResult {
 		return res
 	}
 	rt.SetEnv(w.Env)
-	os.RemoveAll(rt.relocatedRoot())
-	defer os.RemoveAll(rt.relocatedRoot())
+	os.RemoveAll(filepath.Dir(rt.relocatedRoot("")))
+	defer os.RemoveAll(filepath.Dir(rt.relocatedRoot("")))
 	seen := map[string]bool{}
 	violate := func(v Violation) {
 		v.Property = "C07"
@@ -505,6 +524,9 @@ func (rt *Runtime) c07Location(sc *Scenario, res *RunResult, violate func(Violat
 	w := &sc.World
 	here := Env07{ClockOffsetS: 12 * 3600, GoMaxProcs: 4, SrcMode: "dotdot"}
 	there := Env07{ClockOffsetS: 12 * 3600, GoMaxProcs: 4, SrcMode: "dotdot", Relocate: true}
+	if k := sc.Run % (2 * len(relocNames)); k < len(relocNames) {
+		there.RelocName = relocNames[k]
+	}
 	hidden := rt.Root + ".hidden"
 	for _, f := range []string{Formats[sc.Run%len(Formats)], Formats[(sc.Run+2)%len(Formats)]} {
 		b1 := rt.buildUnder(w, "", f, &here)
@@ -684,6 +706,7 @@ func (rt *Runtime) c07Culprit(w *World, f string, base, e *Env07, baseBytes []by
 	try("parallel-neighbour", h)
 	h = *base
 	h.Relocate = e.Relocate
+	h.RelocName = e.RelocName
 	try("source-location", h)
 	h = *base
 	h.Umask = e.Umask
